@@ -105,6 +105,19 @@ Theorem C16_no_call_without_flag : forall i f, has f AllowCall = false -> has_ef
 Proof. exact no_call_without_flag_now. Qed.
 Print Assumptions C16_no_call_without_flag.
 
+(* CALLT (method tokens, contract.LoadToken) is a call primitive of the machine next to System.Contract.Call, so all
+   machine theorems above and below quantify over it too.  It needs BOTH ReadStates and AllowCall in the executing
+   frame whatever the token says, and its callee runs within the caller's flags and (non-safe) the token's flags *)
+Theorem C16_callt_requires_both : forall f r s body,
+  has f ReadStates = false \/ has f AllowCall = false -> exec_now f (ICallT r s body) = ([], false).
+Proof. exact (callt_requires_both interops native_methods). Qed.
+Print Assumptions C16_callt_requires_both.
+
+Theorem C16_callt_callee_flags : forall f r s,
+  subflags (callee_flags f r s) f = true /\ (s = false -> subflags (callee_flags f r s) r = true).
+Proof. exact callt_callee_flags. Qed.
+Print Assumptions C16_callt_callee_flags.
+
 (* frame level, calls included: partial — programs that do not call a method of the F39 class *)
 Theorem C16_effects_in_order_partial : forall i f, f39_free i = true -> Forall (eff_ok f) (fst (exec_now f i)).
 Proof. exact effects_in_order_now. Qed.
@@ -198,6 +211,13 @@ Example C16_ex_machine :
   exec_now 15 (ICall 1 false [ISys "System.Storage.Put"]) = ([(ECall, 15)], false) /\
   exec_now 15 (ICall 15 true [ISys "System.Storage.Put"]) = ([(ECall, 15)], false) /\
   f39_free (ICall 3 false [ISys "System.Storage.Put"]) = true.
+Proof. vm_compute. auto. Qed.
+
+Example C16_ex_callt :
+  exec_now 15 (ICall 7 false [ICallT 15 false [ISys "System.Storage.Local.Put"]]) = ([(ECall, 15); (ECall, 7); (EWrite, 7)], true) /\
+  exec_now 15 (ICall 7 false [ICallT 5 false [ISys "System.Storage.Local.Put"]]) = ([(ECall, 15); (ECall, 7)], false) /\
+  exec_now 15 (ICall 11 false [ICallT 15 false [ISys "System.Storage.Local.Put"]]) = ([(ECall, 15)], false) /\
+  exec_now 15 (ICall 4 false [ICallT 15 false []]) = ([(ECall, 15)], false).
 Proof. vm_compute. auto. Qed.
 
 Example C16_ex_native :
